@@ -77,6 +77,13 @@ class Session:
         else:
             self.emit('* enddef %d' % f, kind='enddef')
 
+    def begin_indep(self):
+        # a rank may leave a collective read early and start writing independently while another
+        # rank is still reading the same element: that program is racy; separate them
+        if self.np > 1:
+            self.emit('* barrier')
+        self.emit('* begin_indep %d' % self.f)
+
     def sync_point(self):
         self.emit('* inq %d' % self.f, kind='inq')
         self.emit('* snapshot %d' % self.f, kind='snapshot')
